@@ -3,20 +3,25 @@
 (* with unlimited scrollback are fed the same input in lock-step (every call's    *)
 (* Changes consumed); after every call  Bound  holds for the limited one, and     *)
 (* whenever both show the primary screen  drained \o lines(L) = lines(unlimited). *)
-EXTENDS Props, Encode, TLC
+EXTENDS Props, Encode, Json, TLC
 
-CONSTANTS Sizes, Limits, Alphabet(_), MaxDepth
-VARIABLES a, b, dr, n, ok
-vars == <<a, b, dr, n, ok>>
+CONSTANTS Sizes, Limits, Alphabet(_), MaxDepth, Emit
+VARIABLES a, b, dr, n, ok, hist
+vars == <<a, b, dr, n, ok, hist>>
+Behaviour(h, st) == "@@ BEHAVIOUR " \o ToJson([init |-> h.init, ops |-> h.ops, st |-> st])
 
 Init == \E sz \in Sizes, lim \in Limits :
           /\ a = Fresh(sz[1], sz[2], lim) /\ b = Fresh(sz[1], sz[2], -1)
           /\ dr = <<>> /\ n = 0 /\ ok = TRUE
+          /\ hist = [init |-> <<sz[1], sz[2], lim>>, ops |-> <<>>]
 Next ==
   /\ n < MaxDepth
   /\ \E fn \in Alphabet(a.t) :
-       LET ra == FeedStr(a, Enc(fn))  rb == FeedStr(b, Enc(fn))  d2 == dr \o ra.dr IN
+       LET ra == FeedStr(a, Enc(fn))  rb == FeedStr(b, Enc(fn))  d2 == dr \o ra.dr
+           h == [hist EXCEPT !.ops = Append(@, [k |-> "fs", s |-> Enc(fn)])] IN
        /\ a' = ra.vt /\ b' = rb.vt /\ dr' = d2 /\ n' = n + 1
+       /\ hist' = h
+       /\ Emit => PrintT(Behaviour(h, ra.vt))
        /\ ok' = (/\ ok
                  /\ Bound(ra.vt)
                  /\ rb.dr = <<>>
